@@ -1,4 +1,4 @@
-import OdxVerif.Proofs.CompBitsMsg
+import OdxVerif.Proofs.CompBitsSkip
 /-! # C02, nested tier — bit-exact PDUs for arbitrarily NESTED descriptions (structures ∘ fields ∘ multiplexers)
     (Separate file; imported by `Props/C03Nested.lean` only.) -/
 namespace OdxVerif.Codec
@@ -218,5 +218,60 @@ example : (∀ e ∈ Descs.layout exBits, ∀ j, j < e.bl →
     ([0x2E, 0x07, 0x55, 0x01, 0x02, 0x09, 0x00, 0x02, 0x08, 0x12, 0x34, 0x02, 0xA1, 0xA2, 0x01, 0xFF, 0xFE, 0x02, 0x01, 0x2C] : Bytes).length
       = Descs.extent exBits :=
   C02_bit_exact_nested exBits exBits_ok none _ exBits_pdu
+
+/-- **C02, nested tier, the compositional interface itself — incl. parameters the encoder skips (RESERVED, NRC-CONST).**
+    For ANY list of components (`Comp.Ok`, the semantic notion behind `Described`) paired with layouts for which the footprint
+    law holds (`Comps.footAll`; `Desc.foot` for every well-formed `Desc`, `foot_reserved` / `foot_nrcConst` for RESERVED and
+    NRC-CONST parameters, whose layout has NO entry: they claim no bit, so they never cause an overlap warning and the bits at
+    their position are whatever the other parameters put there, or zero): strict `encode` returns some `(pdu, w)`;
+    `w = 0` exactly when the entries are pairwise disjoint; if `w = 0` every entry's bits are in the PDU; every unclaimed bit is
+    zero (with or without warning); the PDU is as long as the layout's extent (a skipped object at the end extends it). -/
+theorem C02_bit_exact_nested_pre (gs : List Comp) (ls : List Lay) (hok : ∀ g ∈ gs, g.Ok) (hF : Comps.footAll gs ls)
+    (hn : Comps.namesOk gs) (hlast : Comps.eopLast gs) (hneed : Comps.need gs + 2 ≤ modelFuel) (trig : Option Bytes) :
+    ∃ pdu w, encodeMessage none (Comps.toParams gs) (.dict (Comps.values gs)) trig true = .ok (pdu, w) ∧
+      (w = 0 ↔ LDisj ((Lay.seqs ls).ents 0 0)) ∧
+      (w = 0 → (∀ e ∈ (Lay.seqs ls).ents 0 0, ∀ j, j < e.bl → getBit pdu (absBit e.pos e.k e.hl (j + e.bp)) = e.raw.testBit j)) ∧
+      (∀ a, (∀ e ∈ (Lay.seqs ls).ents 0 0, ¬ e.claims a) → getBit pdu a = false) ∧
+      pdu.length = (Lay.seqs ls).ext 0 0 :=
+  comps_bit_exact gs (Lay.seqs ls) (Comps.okAll_of_forall gs hok) (Comps.foot gs ls hF) hn hlast hneed trig
+
+/-! non-vacuity: negative response [sid = 0x7F (CODED-CONST, omitted); code: VALUE at byte 1; nrc: NRC-CONST {0x11, 0x31} at byte 1
+    (on top of `code`: no entry, no warning); res: RESERVED 8 bits; z] -/
+def bNrcObj : Obj := ⟨"nrc", some 1, none, none, true, 8, .uint32⟩
+def exSkipDescs : List Desc := [.const (bU8 "sid") (.int 0x7F) false, .value (bU8 "code") (.int 0x31), .value (bU8 "z") (.int 0xAA)]
+def exSkip : List Comp :=
+  [(Desc.const (bU8 "sid") (.int 0x7F) false).comp, (Desc.value (bU8 "code") (.int 0x31)).comp,
+   Comp.nrcConst bNrcObj [.int 0x11, .int 0x31] (.int 0x31), Comp.reserved "res" none none 8 0, (Desc.value (bU8 "z") (.int 0xAA)).comp]
+def exSkipLays : List Lay :=
+  [(Desc.const (bU8 "sid") (.int 0x7F) false).lay, (Desc.value (bU8 "code") (.int 0x31)).lay,
+   Lay.skip bNrcObj, Lay.skip (reservedObj "res" none none 8), (Desc.value (bU8 "z") (.int 0xAA)).lay]
+
+theorem exSkip_ok : ∀ g ∈ exSkip, g.Ok := by
+  intro g hg
+  simp only [exSkip, List.mem_cons, List.mem_nil_iff, or_false] at hg
+  rcases hg with rfl | rfl | rfl | rfl | rfl
+  · exact (Desc.described _ (by simp only [Desc.wf]; exact ⟨bU8_ok _, bU8_range _ _ (by decide) (by decide)⟩)).ok.1
+  · exact (Desc.described _ (wfU8 _ _ (by decide) (by decide))).ok.1
+  · exact Comp.nrcConst_ok _ _ _ (by simp [bNrcObj, Obj.ok, Obj.encOk, Obj.sizeOk]) (by decide)
+  · exact Comp.reserved_ok _ _ _ _ _ (by decide) (by decide)
+  · exact (Desc.described _ (wfU8 _ _ (by decide) (by decide))).ok.1
+
+theorem exSkip_foot : Comps.footAll exSkip exSkipLays :=
+  ⟨Desc.foot _ (by simp only [Desc.wf]; exact ⟨bU8_ok _, bU8_range _ _ (by decide) (by decide)⟩),
+   Desc.foot _ (wfU8 _ _ (by decide) (by decide)), foot_nrcConst _ _ _, foot_reserved _ _ _ _ _,
+   Desc.foot _ (wfU8 _ _ (by decide) (by decide)), trivial⟩
+
+/-- three entries (the NRC-CONST and the RESERVED parameter have none), extent 4 -/
+example : (Lay.seqs exSkipLays).ents 0 0 =
+    [⟨.codedConst, "sid", 0, 1, true, 0, 8, 0x7F⟩, ⟨.value, "code", 1, 1, true, 0, 8, 0x31⟩, ⟨.value, "z", 3, 1, true, 0, 8, 0xAA⟩] ∧
+    (Lay.seqs exSkipLays).ext 0 0 = 4 := by decide +kernel
+example : (encodeMessage none (Comps.toParams exSkip) (.dict (Comps.values exSkip)) none true).toOption
+    = some ([0x7F, 0x31, 0x00, 0xAA], 0) := by decide +kernel
+/-- the theorem applies -/
+example :=
+  C02_bit_exact_nested_pre exSkip exSkipLays exSkip_ok exSkip_foot
+    (by simp [Comps.namesOk, exSkip, Desc.comp, Comp.name, Param.name, Comp.ofObjConst, Obj.toConstParam, Comp.ofObjValue, Obj.toParam,
+      Comp.nrcConst, Comp.reserved, bU8, bNrcObj])
+    ⟨rfl, rfl, rfl, rfl, trivial⟩ (by decide) none
 
 end OdxVerif.Codec
